@@ -35,6 +35,61 @@ def member_names(fn, cls, fields):
     return out
 
 
+def transferred_names(fn, cls, fields, param=None):
+    """Fields of `cls` that occur inside the arguments of a call on the serializer parameter (serializer(x), serializer.vector(x), ...)
+    or are handed, together with the serializer, to another function (pack_unpack helpers)."""
+    sp = param or (fn.get("params") or [{}])[0].get("n") or "serializer"
+    out = set()
+    for n in walk_fn(fn):
+        if n["k"] not in ("Call", "OpCall", "MCall"):
+            continue
+        on_ser = False
+        cal = n.get("callee") if isinstance(n.get("callee"), dict) else None
+        obj = n.get("obj") if isinstance(n.get("obj"), dict) else None
+        args = list(n.get("a") or [])
+        if cal is not None and strip(cal).get("k") == "Ref" and strip(cal).get("n") == sp:
+            on_ser = True
+        elif n["k"] == "OpCall" and n.get("op") == "()" and args and strip(args[0]).get("k") == "Ref" and strip(args[0]).get("n") == sp:
+            on_ser = True
+            args = args[1:]
+        elif obj is not None and strip(obj).get("k") == "Ref" and strip(obj).get("n") == sp:
+            on_ser = True
+        elif cal is not None and cal.get("k") in ("DMem", "UMem", "Mem") and strip(cal.get("b") or {}).get("k") == "Ref" and strip(cal.get("b") or {}).get("n") == sp:
+            on_ser = True
+        elif any(strip(a).get("k") == "Ref" and strip(a).get("n") == sp for a in args):
+            on_ser = True      # helper(serializer, member...) / this->pack_unpack(serializer)
+        if not on_ser:
+            continue
+        for a in args:
+            for x in walk(a):
+                k = x.get("k")
+                if k == "Mem" and not x.get("meth") and (x.get("cls") == cls or (x["n"] in fields and x.get("cls") is None)):
+                    out.add(x["n"])
+                elif k in ("DMem", "UMem", "DRef", "ULookup") and x.get("n") in fields:
+                    out.add(x["n"])
+    return out
+
+
+def handled_in_place(fn, cls, fields):
+    """Fields that serializeOp itself rebuilds: assigned, or the object of a non-const member call (seed(), clear(), resize(), ...)."""
+    out = set()
+    for n in walk_fn(fn):
+        tgt = None
+        if n["k"] == "Bin" and n.get("asg"):
+            tgt = strip(n["c"][0])
+        elif n["k"] == "OpCall" and n.get("op") in ("=", "+=") and n.get("a"):
+            tgt = strip(n["a"][0])
+        elif n["k"] in ("MCall",) and isinstance(n.get("obj"), dict) and not n.get("const"):
+            tgt = strip(n["obj"])
+        elif n["k"] == "Call" and isinstance(n.get("callee"), dict) and n["callee"].get("k") in ("DMem", "UMem"):
+            tgt = strip(n["callee"].get("b") or {})
+        while isinstance(tgt, dict) and tgt.get("k") in ("Idx",):
+            tgt = strip(tgt["c"][0])
+        if isinstance(tgt, dict) and tgt.get("k") in ("Mem", "DMem", "UMem", "DRef", "ULookup") and tgt.get("n") in fields:
+            out.add(tgt["n"])
+    return out
+
+
 def own_calls(fn, cls, methods):
     """Short names of methods of cls called in fn (resolved callee with parent cls, or dependent by name)."""
     out = set()
@@ -481,7 +536,9 @@ def run(chk):
         chk.instance(r_cls, cls, nontrivial=bool(fields) and in_scope, sample=dict(cls=cls, fields=len(fields), in_scope=in_scope, file=rec["file"]))
         S = set()
         for f in ser[cls]:
-            S |= member_names(f, cls, names)
+            # transferred = handed to the serializer (directly or through a helper that also receives the serializer), or rebuilt by
+            # serializeOp itself; a member that is merely read there (to re-bind pointers, say) is NOT transferred
+            S |= transferred_names(f, cls, names) | handled_in_place(f, cls, names)
         has_eq = cls in eq
         E = eq_fields(cls, names, methods) if has_eq else set()
         if not in_scope:
